@@ -55,7 +55,7 @@ def run(ctx):
     n = 25 if q else 400
     for i in range(n):
         mode = ["const", "low", "low", "prefix", "rand"][i % 5]
-        keys, h1, h2 = gen_tables(ctx.rng, ctx.rng.choice([6, 8, 10, 12]), mode)
+        keys, h1, h2 = gen_tables(ctx.rng, ctx.rng.choice([6, 8, 12, 18, 22]), mode)   # StripedSet starts with 16 buckets: > 16 keys to make it grow
         er = ctx.rng.sample(keys, 2)
         prog = seq_program(keys, h1, h2, er)
         for v in CUCKOO:
